@@ -573,7 +573,9 @@ pub fn resolved(_fields: &[&str]) -> String
 
 // ---- C07: the type-agreement relations of value_type.rs on a pair of types given as S-expressions ----
 
-type VT = penne::alpha::value_type::ValueType<String>;
+use penne::alpha::value_type::ValueType as GVT;
+type VT = GVT<String>;
+type TVT = GVT<penne::alpha::common::Identifier>;
 
 fn vt_tokens(s: &str) -> Vec<String>
 {
@@ -608,7 +610,11 @@ fn vt_tokens(s: &str) -> Vec<String>
 	out
 }
 
-fn vt_parse(toks: &[String], i: &mut usize) -> Option<VT>
+fn vt_parse<I: penne::alpha::value_type::Identifier>(
+	toks: &[String],
+	i: &mut usize,
+	mk: &dyn Fn(&str, usize) -> I,
+) -> Option<GVT<I>>
 {
 	let t = toks.get(*i)?.clone();
 	*i += 1;
@@ -616,27 +622,27 @@ fn vt_parse(toks: &[String], i: &mut usize) -> Option<VT>
 	{
 		return Some(match t.as_str()
 		{
-			"void" => VT::Void,
-			"i8" => VT::Int8,
-			"i16" => VT::Int16,
-			"i32" => VT::Int32,
-			"i64" => VT::Int64,
-			"i128" => VT::Int128,
-			"u8" => VT::Uint8,
-			"u16" => VT::Uint16,
-			"u32" => VT::Uint32,
-			"u64" => VT::Uint64,
-			"u128" => VT::Uint128,
-			"usize" => VT::Usize,
-			"char8" => VT::Char8,
-			"bool" => VT::Bool,
-			"unresolved" => VT::UnresolvedStructOrWord { identifier: None },
+			"void" => GVT::Void,
+			"i8" => GVT::Int8,
+			"i16" => GVT::Int16,
+			"i32" => GVT::Int32,
+			"i64" => GVT::Int64,
+			"i128" => GVT::Int128,
+			"u8" => GVT::Uint8,
+			"u16" => GVT::Uint16,
+			"u32" => GVT::Uint32,
+			"u64" => GVT::Uint64,
+			"u128" => GVT::Uint128,
+			"usize" => GVT::Usize,
+			"char8" => GVT::Char8,
+			"bool" => GVT::Bool,
+			"unresolved" => GVT::UnresolvedStructOrWord { identifier: None },
 			_ => return None,
 		});
 	}
 	let head = toks.get(*i)?.clone();
 	*i += 1;
-	let mut num = |i: &mut usize| -> Option<usize> {
+	let num = |i: &mut usize| -> Option<usize> {
 		let v = toks.get(*i)?.parse::<usize>().ok()?;
 		*i += 1;
 		Some(v)
@@ -646,29 +652,29 @@ fn vt_parse(toks: &[String], i: &mut usize) -> Option<VT>
 		"array" =>
 		{
 			let n = num(i)?;
-			let t = vt_parse(toks, i)?;
-			VT::Array { element_type: Box::new(t), length: n }
+			let t = vt_parse(toks, i, mk)?;
+			GVT::Array { element_type: Box::new(t), length: n }
 		}
 		"named" =>
 		{
 			let n = num(i)?;
-			let t = vt_parse(toks, i)?;
-			VT::ArrayWithNamedLength { element_type: Box::new(t), named_length: format!("N{}", n) }
+			let t = vt_parse(toks, i, mk)?;
+			GVT::ArrayWithNamedLength { element_type: Box::new(t), named_length: mk("N", n) }
 		}
-		"slice" => VT::Slice { element_type: Box::new(vt_parse(toks, i)?) },
-		"sliceptr" => VT::SlicePointer { element_type: Box::new(vt_parse(toks, i)?) },
-		"endless" => VT::EndlessArray { element_type: Box::new(vt_parse(toks, i)?) },
-		"arraylike" => VT::Arraylike { element_type: Box::new(vt_parse(toks, i)?) },
-		"pointer" => VT::Pointer { deref_type: Box::new(vt_parse(toks, i)?) },
-		"view" => VT::View { deref_type: Box::new(vt_parse(toks, i)?) },
-		"struct" => VT::Struct { identifier: format!("S{}", num(i)?) },
+		"slice" => GVT::Slice { element_type: Box::new(vt_parse(toks, i, mk)?) },
+		"sliceptr" => GVT::SlicePointer { element_type: Box::new(vt_parse(toks, i, mk)?) },
+		"endless" => GVT::EndlessArray { element_type: Box::new(vt_parse(toks, i, mk)?) },
+		"arraylike" => GVT::Arraylike { element_type: Box::new(vt_parse(toks, i, mk)?) },
+		"pointer" => GVT::Pointer { deref_type: Box::new(vt_parse(toks, i, mk)?) },
+		"view" => GVT::View { deref_type: Box::new(vt_parse(toks, i, mk)?) },
+		"struct" => GVT::Struct { identifier: mk("S", num(i)?) },
 		"word" =>
 		{
 			let id = num(i)?;
 			let sz = num(i)?;
-			VT::Word { identifier: format!("S{}", id), size_in_bytes: sz }
+			GVT::Word { identifier: mk("S", id), size_in_bytes: sz }
 		}
-		"unresolved" => VT::UnresolvedStructOrWord { identifier: Some(format!("S{}", num(i)?)) },
+		"unresolved" => GVT::UnresolvedStructOrWord { identifier: Some(mk("S", num(i)?)) },
 		_ => return None,
 	};
 	if toks.get(*i)? != ")"
@@ -679,6 +685,14 @@ fn vt_parse(toks: &[String], i: &mut usize) -> Option<VT>
 	Some(r)
 }
 
+fn vt_of<I: penne::alpha::value_type::Identifier>(s: &str, mk: &dyn Fn(&str, usize) -> I) -> Option<GVT<I>>
+{
+	let toks = vt_tokens(s);
+	let mut i = 0;
+	let t = vt_parse(&toks, &mut i, mk)?;
+	if i == toks.len() { Some(t) } else { None }
+}
+
 /// `agree <type a> <type b>`
 pub fn agree(fields: &[&str]) -> String
 {
@@ -686,16 +700,12 @@ pub fn agree(fields: &[&str]) -> String
 	{
 		return "bad-request".into();
 	}
-	let parse = |s: &str| -> Option<VT> {
-		let toks = vt_tokens(s);
-		let mut i = 0;
-		let t = vt_parse(&toks, &mut i)?;
-		if i == toks.len() { Some(t) } else { None }
-	};
-	match (parse(fields[0]), parse(fields[1]))
+	let mk = |p: &str, n: usize| format!("{}{}", p, n);
+	match (vt_of::<String>(fields[0], &mk), vt_of::<String>(fields[1], &mk))
 	{
 		(Some(a), Some(b)) =>
 		{
+			let a: VT = a;
 			let bit = |v: bool| if v { "1" } else { "0" };
 			format!(
 				"declared={} conc={} coerce={} coerceaddr={}",
@@ -704,6 +714,64 @@ pub fn agree(fields: &[&str]) -> String
 				bit(a.can_coerce_into(&b)),
 				bit(a.can_coerce_address_into(&b))
 			)
+		}
+		_ => "bad-request".into(),
+	}
+}
+
+/// `update <known type> <new type> <symbol authoritative 0|1> <new authoritative 0|1>`: typer::do_update_symbol
+pub fn update(fields: &[&str]) -> String
+{
+	if fields.len() != 4
+	{
+		return "bad-request".into();
+	}
+	use penne::alpha::common::Identifier;
+	let location = penne::alpha::lexer::Location {
+		source_filename: "t.pn".to_string(),
+		span: 0..1,
+		line_number: 1,
+		line_offset: 0,
+	};
+	let mk = |p: &str, n: usize| Identifier {
+		name: format!("{}{}", p, n),
+		location: location.clone(),
+		// structures S<n> and named lengths N<n> are different things
+		resolution_id: (if p == "S" { 100 } else { 200 }) + n as u32,
+		is_authoritative: true,
+	};
+	match (vt_of::<Identifier>(fields[0], &mk), vt_of::<Identifier>(fields[1], &mk))
+	{
+		(Some(ot), Some(vt)) =>
+		{
+			let ot: TVT = ot;
+			if !ot.is_wellformed() || !vt.is_wellformed()
+			{
+				return "illformed".into();
+			}
+			let mut sym = mk("x", 900);
+			sym.is_authoritative = fields[2] == "1";
+			let mut new = mk("x", 900);
+			new.is_authoritative = fields[3] == "1";
+			match penne::alpha::typer::verif_update_symbol(sym, ot.clone(), &new, vt.clone())
+			{
+				None => "none".into(),
+				Some(r) =>
+				{
+					if r == ot
+					{
+						"old".into()
+					}
+					else if r == vt
+					{
+						"new".into()
+					}
+					else
+					{
+						"other".into()
+					}
+				}
+			}
 		}
 		_ => "bad-request".into(),
 	}
